@@ -284,7 +284,7 @@ func ruleLCK7emit(w *World, r *Report) {
 		return
 	}
 	fn := w.SSAFunc(fi.Obj)
-	isSend := func(in ssa.Instruction) bool {
+	rawSend := func(in ssa.Instruction) bool {
 		switch x := in.(type) {
 		case *ssa.Send:
 			return true
@@ -296,6 +296,46 @@ func ruleLCK7emit(w *World, r *Report) {
 			}
 		}
 		return false
+	}
+	// a closure of Emit that sends: called in place it is a send of Emit, started with `go` it sends without the lock
+	var closureSends func(f *ssa.Function) bool
+	closureSends = func(f *ssa.Function) bool {
+		if len(findInstrs(f, rawSend)) > 0 {
+			return true
+		}
+		for _, a := range f.AnonFuncs {
+			if closureSends(a) {
+				return true
+			}
+		}
+		return false
+	}
+	sendingClosure := func(c *ssa.CallCommon) bool {
+		if c == nil || c.IsInvoke() {
+			return false
+		}
+		v := c.Value
+		if mc, ok := v.(*ssa.MakeClosure); ok {
+			v = mc.Fn
+		}
+		f, ok := v.(*ssa.Function)
+		return ok && f.Parent() != nil && closureSends(f)
+	}
+	isSend := func(in ssa.Instruction) bool {
+		if rawSend(in) {
+			return true
+		}
+		switch x := in.(type) {
+		case *ssa.Call:
+			return sendingClosure(&x.Call)
+		case *ssa.Defer:
+			return sendingClosure(&x.Call)
+		}
+		return false
+	}
+	for _, g := range findInstrs(fn, func(in ssa.Instruction) bool { g, ok := in.(*ssa.Go); return ok && sendingClosure(&g.Call) }) {
+		r.Bad("LCK-7e", "EventBus.Emit:sends-under-the-subscriber-lock", w.Pos(g.Pos()), "EventBus.Emit hands the send to a goroutine of its own: that goroutine runs after Emit has released the subscriber lock, an Unsubscribe or Close in between closes the channel and the send panics", w.witness([]ssa.Instruction{g})...)
+		return
 	}
 	isUnlock := func(in ssa.Instruction) bool {
 		return isCallTo(in, "sync", "RWMutex.RUnlock") || isCallTo(in, "sync", "RWMutex.Unlock")
@@ -510,31 +550,127 @@ func ruleGRDlayersVerbatim(w *World, r *Report) {
 
 // GRD-reinforce-all: reinforcing counts for every memory, pinned or not.
 func ruleGRDreinforceAll(w *World, r *Report) {
-	r.Doc("GRD-reinforce-all", "no branch of Engine.VReinforce is decided by the _pinned flag of the memory: reinforcing a pinned memory counts the access and moves its reference time like for any other memory (the pin only switches decay off while it is set)", 1)
+	r.Doc("GRD-reinforce-all", "no branch of Engine.VReinforce that is decided by the _pinned flag of the memory has an effect: the two arms of such a branch differ at most in logging — no store, no map update, no call besides log/slog, no way out of the iteration — so reinforcing a pinned memory counts the access and moves its reference time like for any other memory (the pin only switches decay off while it is set)", 1)
 	fi := w.Func("pkg/engine", "Engine.VReinforce")
 	if fi == nil {
 		r.Und("GRD-reinforce-all", "anchor:Engine.VReinforce", "", "anchor lost")
 		return
 	}
 	fn := w.SSAFunc(fi.Obj)
-	bad := false
-	var at token.Pos
+	// values computed from the flag
+	derived := map[ssa.Value]bool{}
+	var work []ssa.Value
 	for _, b := range fn.Blocks {
 		for _, in := range b.Instrs {
-			lk, ok := in.(*ssa.Lookup)
-			if !ok {
-				continue
-			}
-			if k, ok := constString(lk.Index); ok && k == "_pinned" {
-				bad, at = true, lk.Pos()
+			if lk, ok := in.(*ssa.Lookup); ok {
+				if k, ok := constString(lk.Index); ok && k == "_pinned" {
+					derived[lk] = true
+					work = append(work, lk)
+				}
 			}
 		}
 	}
+	for len(work) > 0 {
+		v := work[0]
+		work = work[1:]
+		refs := v.Referrers()
+		if refs == nil {
+			continue
+		}
+		for _, ref := range *refs {
+			switch x := ref.(type) {
+			case *ssa.Extract, *ssa.TypeAssert, *ssa.UnOp, *ssa.BinOp, *ssa.Phi, *ssa.ChangeType, *ssa.Convert, *ssa.MakeInterface, *ssa.ChangeInterface:
+				if val := x.(ssa.Value); !derived[val] {
+					derived[val] = true
+					work = append(work, val)
+				}
+			case *ssa.Store: // spilled into a local: its loads carry the flag
+				if x.Val != v {
+					continue
+				}
+				if al, ok := x.Addr.(*ssa.Alloc); ok {
+					for _, lr := range *al.Referrers() {
+						if ld, ok := lr.(*ssa.UnOp); ok && ld.Op == token.MUL && !derived[ld] {
+							derived[ld] = true
+							work = append(work, ld)
+						}
+					}
+				}
+			}
+		}
+	}
+	quiet := func(in ssa.Instruction) bool { // may an arm contain this and still be "logging only"?
+		switch x := in.(type) {
+		case *ssa.Store: // filling the argument array of a variadic (log) call made in the same block
+			a := x.Addr
+			for {
+				if ia, ok := a.(*ssa.IndexAddr); ok {
+					a = ia.X
+				} else if fa, ok := a.(*ssa.FieldAddr); ok {
+					a = fa.X
+				} else {
+					break
+				}
+			}
+			al, ok := a.(*ssa.Alloc)
+			return ok && al.Block() == x.Block()
+		case *ssa.MapUpdate, *ssa.Send, *ssa.Go, *ssa.Defer, *ssa.Return, *ssa.Panic, *ssa.RunDefers:
+			return false
+		case *ssa.Call:
+			o := calleeObj(&x.Call)
+			if o == nil || o.Pkg() == nil {
+				return false
+			}
+			switch o.Pkg().Path() {
+			case "log", "log/slog", "fmt":
+				return true
+			}
+			return false
+		}
+		return true
+	}
+	bad := ""
+	var at token.Pos
+	for _, b := range fn.Blocks {
+		iff, ok := b.Instrs[len(b.Instrs)-1].(*ssa.If)
+		if !ok || !derived[iff.Cond] {
+			continue
+		}
+		// the region only one arm runs, and where the arms meet again
+		exits := map[*ssa.BasicBlock]bool{}
+		for _, s := range b.Succs {
+			if len(s.Preds) != 1 {
+				exits[s] = true // the arm is empty: this is already the join
+				continue
+			}
+			for _, rb := range fn.Blocks {
+				if !s.Dominates(rb) {
+					continue
+				}
+				for _, in := range rb.Instrs {
+					if !quiet(in) && bad == "" {
+						bad, at = "an arm of the branch does more than log ("+strings.TrimSpace(in.String())+")", in.Pos()
+						if at == token.NoPos {
+							at = iff.Cond.Pos()
+						}
+					}
+				}
+				for _, out := range rb.Succs {
+					if !s.Dominates(out) {
+						exits[out] = true
+					}
+				}
+			}
+		}
+		if len(exits) != 1 && bad == "" {
+			bad, at = "the two arms of the branch do not meet again in one place (one of them leaves the iteration or the function)", iff.Cond.Pos()
+		}
+	}
 	pos := w.Pos(fi.Decl.Pos())
-	if bad {
+	if bad != "" {
 		pos = w.Pos(at)
 	}
-	r.Cond(!bad, "GRD-reinforce-all", "Engine.VReinforce:not-decided-by-the-pin", pos, "VReinforce does not read _pinned", "VReinforce reads the _pinned flag: skipping pinned memories leaves _access_count and _last_accessed untouched although the call reports success — once the pin is removed the memory is scored from its creation time with no recorded accesses")
+	r.Cond(bad == "", "GRD-reinforce-all", "Engine.VReinforce:not-decided-by-the-pin", pos, "no effect of VReinforce depends on _pinned", "VReinforce treats pinned memories differently — "+bad+": leaving _access_count or _last_accessed untouched although the call reports success means that, once the pin is removed, the memory is scored from an older reference time or with fewer recorded accesses")
 }
 
 // GRD-close-keeps-files: closing an arena deletes nothing.
@@ -627,12 +763,65 @@ func ruleGRDinvalAll(w *World, r *Report) {
 				case "Index.IterateRaw", "Index.Iterate":
 					full = true
 				case "Engine.VGetIDsByCursor", "Index.GetIDsByCursor":
-					paged = true
+					if pagedToTheEnd(f, c) {
+						full = true
+					} else {
+						paged = true
+					}
 				}
 			}
 		}
 	}
 	r.Cond(full && !paged, "GRD-inval-all", "AIProxy.handleCacheInvalidate:enumerates-the-whole-cache", w.Pos(fi.Decl.Pos()), "the cache index is iterated in full", "handleCacheInvalidate lists the cache entries through one cursor page sized by max_cache_items: with the documented 'no cap' setting 0 the page is empty, and after the cap was lowered (or concurrent saves overshot it) entries past the page are missed — /cache/invalidate answers deleted: 0 and the stale answers keep coming back as HIT")
+}
+
+// pagedToTheEnd: a cursor call that is repeated until the index says it is done — the call lies in a loop, its cursor
+// argument is carried round that loop from the cursor the call itself returned, the page size is a positive constant,
+// and the loop is left on a test of the returned cursor (the index answers 0 when it has reached the end).
+func pagedToTheEnd(fn *ssa.Function, c *ssa.Call) bool {
+	h := innermostLoop(fn, c.Block())
+	if h == nil {
+		return false
+	}
+	loop := naturalLoop(h)
+	args := c.Call.Args
+	if len(args) < 3 {
+		return false
+	}
+	cursorArg, limitArg := args[len(args)-2], args[len(args)-1]
+	if k, ok := limitArg.(*ssa.Const); !ok || k.Value == nil || k.Int64() <= 0 {
+		return false
+	}
+	var next ssa.Value // the returned cursor
+	for _, ref := range *c.Referrers() {
+		if e, ok := ref.(*ssa.Extract); ok && e.Index == 1 {
+			next = e
+		}
+	}
+	if next == nil {
+		return false
+	}
+	carried := false
+	for _, l := range phiLeavesOf(cursorArg) {
+		if l == next {
+			carried = true
+		}
+	}
+	if !carried {
+		return false
+	}
+	for b := range loop {
+		iff, ok := b.Instrs[len(b.Instrs)-1].(*ssa.If)
+		if !ok || (loop[b.Succs[0]] && loop[b.Succs[1]]) {
+			continue
+		}
+		for _, l := range arithLeaves(iff.Cond, 4) {
+			if l == next {
+				return true
+			}
+		}
+	}
+	return false
 }
 
 // GRD-tombstone-storage: a soft delete keeps the vector.
